@@ -75,6 +75,7 @@ enum Call {
   Search,
 }
 
+#[allow(dead_code)]
 fn call_coq(c: &Call) -> String {
   match c {
     Call::Add(d, true) => {
@@ -131,7 +132,7 @@ fn lib_search(index: &Path, req: &Value) -> SearchOut {
   let idx = Index::open(opts(index, false)).map_err(|_| ())?;
   let reader = idx.reader().map_err(|_| ())?;
   let res = reader.search(&r).map_err(|_| ())?;
-  serde_json::to_value(&res).map_err(|_| ())
+  serde_json::to_string(&res).map_err(|_| ()).and_then(|t| serde_json::from_str(&t).map_err(|_| ())) // through text, as every front end does (f32 scores)
 }
 
 /// Runs the calls of one front-end command with one writer, as a library user would.
@@ -574,7 +575,7 @@ fn lib_search_req(index: &Path, r: &SearchRequest) -> SearchOut {
   let idx = Index::open(opts(index, false)).map_err(|_| ())?;
   let reader = idx.reader().map_err(|_| ())?;
   let res = reader.search(r).map_err(|_| ())?;
-  serde_json::to_value(&res).map_err(|_| ())
+  serde_json::to_string(&res).map_err(|_| ()).and_then(|t| serde_json::from_str(&t).map_err(|_| ())) // through text, as every front end does (f32 scores)
 }
 
 fn case_ffi(rng: &mut Rng) -> (String, Value, bool) {
